@@ -15,7 +15,9 @@ from common import (gen_raster_net, gen_shape, mk_raster, canon_idx, ints, net_f
 OPS = ["subbasins_streamorder", "subbasins_area", "subbasins_pfafstetter(depth=1,2,3)",
        "stream_order(classic)", "_tributaries"]
 RULE = ("random loop-free networks on rasters <= 56 cells (quick) / <= 400 (thorough): D8 networks from random "
-        "DEMs, arbitrary forests and nested 'comb' trees (main stems with many tributaries); stream orders = "
+        "DEMs, arbitrary forests, nested 'comb' trees (main stems with many tributaries) and 'star' confluences "
+        "(3-5 inflows with prescribed sub-basin sizes around area_min feeding a reach that ends at a non-pit "
+        "outlet); stream orders = "
         "Strahler (default and explicit), classic, random; thresholds min_sto in -3..4, area_min 0..half the "
         "largest area incl. values equal to an upstream area; upstream areas = cell counts (many ties), "
         "accumulated random cell areas in quarters (few ties), arbitrary fields; upa_min None/0/a value of the "
@@ -74,9 +76,85 @@ def gen_comb(rng, n):
     return ds
 
 
+def gen_star(rng, max_cells):
+    """star confluence feeding a downstream reach: pit <- reach longer than the threshold A (so the
+    reach above it is cut from the pit basin and ends at a NON-pit outlet) <- short reach <- confluence
+    d with 3-5 inflows: a long main stem and 2-4 tributaries whose sub-basin sizes are prescribed
+    around A (at least two of them > A). Whether the last tributaries / the main stem may still be
+    cut depends on what the earlier cuts left of d's sub-basin: the `upa_out` bookkeeping.
+    Returns (ds, shape, A)."""
+    while True:
+        A = rng.randint(2, 5)
+        l_down = A + rng.randint(1, 3)
+        l_gap = rng.randint(1, max(1, A - 1))
+        l_main = rng.randint(A + 2, 2 * A + 4)
+        ntrib = rng.randint(2, 4)
+        sizes = [A + rng.randint(1, 2), A + rng.randint(1, 2)] + [A + rng.randint(-1, 2) for _ in range(ntrib - 2)]
+        sizes = [min(s, l_main - 1) for s in sizes]
+        rng.shuffle(sizes)
+        extra = [rng.randint(1, A) for _ in range(rng.randint(0, 2))]     # small side branches on the main stem
+        need = 1 + l_down + l_gap + l_main + sum(sizes) + sum(extra)
+        if need <= max_cells:
+            break
+    ncol = rng.randint(3, 8)
+    nrow = -(-need // ncol) + rng.randint(0, 1)
+    while nrow * ncol > max_cells:
+        ncol -= 1
+        nrow = -(-need // ncol)
+    n = nrow * ncol
+    perm = list(range(n))
+    rng.shuffle(perm)
+    ds = [n] * n
+    used = [0]
+
+    def new(parent):
+        v = perm[used[0]]
+        used[0] += 1
+        ds[v] = v if parent is None else parent
+        return v
+
+    def chain(root, ln):
+        cells, cur = [], root
+        for _ in range(ln):
+            cur = new(cur)
+            cells.append(cur)
+        return cells
+
+    def blob(root, size):
+        """sub-basin of `size` cells draining to root: a chain, sometimes with a fork"""
+        first = new(root)
+        cells = [first]
+        for _ in range(size - 1):
+            at = cells[-1] if rng.random() < 0.7 else rng.choice(cells)
+            cells.append(new(at))
+        return first
+
+    pit = new(None)
+    down = chain(pit, l_down)
+    gap = chain(down[-1], l_gap)
+    d = gap[-1]
+    order = ["main"] + ["trib"] * len(sizes)
+    rng.shuffle(order)                      # cell numbering (and so the order within seq) varies
+    main = None
+    it = iter(sizes)
+    for what in order:
+        if what == "main":
+            main = chain(d, l_main)
+        else:
+            blob(d, next(it))
+    for e in extra:
+        blob(rng.choice(main[:-1]), e)
+    return ds, (nrow, ncol), A
+
+
 def gen_net(rng, max_cells):
     u = rng.random()
-    if u < 0.4:
+    if u < 0.12:
+        ds, shape, A = gen_star(rng, max_cells)
+        gen_net.hint = A
+        return ds, shape, "star"
+    gen_net.hint = None
+    if u < 0.45:
         shape = gen_shape(rng, max_cells=max_cells)
         n = shape[0] * shape[1]
         return gen_comb(rng, n), shape, "comb"
@@ -142,7 +220,8 @@ def run(ctx):
             continue
         seq = canon_idx(flw.idxs_seq, n)
         base = {"ds": ds, "shape": list(shape), "dtype": np.dtype(dt).name, "jit": JIT}
-        env = {"flw": flw, "ds": ds, "n": n, "seq": seq, "shape": shape, "base": base, "nontriv": nontriv}
+        env = {"flw": flw, "ds": ds, "n": n, "seq": seq, "shape": shape, "base": base, "nontriv": nontriv,
+               "hint": gen_net.hint}
         _streamorder(ctx, rng, env)
         _area(ctx, rng, env)
         _pfaf(ctx, rng, env)
@@ -252,10 +331,17 @@ def _streamorder(ctx, rng, env):
 def _area(ctx, rng, env):
     flw, ds, n, seq, shape = env["flw"], env["ds"], env["n"], env["seq"], env["shape"]
     kind, area, up = gen_area_field(rng, ds)
+    hint = env.get("hint")
+    if hint is not None and rng.random() < 0.85:     # star family: unit cells, threshold = prescribed A
+        kind, area = "count", [SCALE] * n
+        up = [v if ds[i] != n else -9999 * SCALE for i, v in enumerate(accumulate(ds, area))]
     vals = sorted({up[i] for i in range(n) if ds[i] != n})
     top = max(vals)
     u = rng.random()
-    if u < 0.35:
+    if hint is not None and kind == "count" and u < 0.9:
+        amin = hint * SCALE - rng.choice([0, 0, 0, 1, 2])
+        ctx.count("area:star-threshold")
+    elif u < 0.35:
         amin = rng.choice(vals)                      # equal to an upstream area: `>` is strict
     elif u < 0.45:
         amin = 0
@@ -370,6 +456,10 @@ def _pfaf(ctx, rng, env):
             if genuine and a["impl.refine_ok"] != [1]:
                 fs.append({"kind": "spec", "what": "code at depth d // 10 != code at depth d-1", **out, "shallow": res[d - 2][0]})
             ctx.count("pfaf:eq-compared" if a["tie"] == [0] else "pfaf:tie(certificates only)")
+            ctx.count("pfaf:partition-side-condition=%d%s" % (a["model.ib_ok"][0], "" if genuine else "(arbitrary field)"))
+            if genuine and a["model.ib_ok"] != [1]:
+                fs.append({"kind": "model", "what": "side condition of theorem pfaf_partition (inter-basin outlets met in "
+                           "down- to upstream order) not met by the model run on a genuine upstream-area field", "depth": d})
             if a["tie"] == [0]:
                 if il != a["model.labels"] or io != a["model.idxs"]:
                     fs.append({"kind": "model", "what": "subbasins_pfafstetter: implementation != Lean model",
